@@ -7,13 +7,15 @@
     inet.py ipvpn.py   [path-id:4 when ADD-PATH] mask(1) then ceil(mask/8) bytes (the mask counts labels, RD, prefix)
     evpn/nlri.py mvpn/nlri.py   type(1) len(1) payload(len)                keeps the whole slice
     mup/nlri.py        arch(1) type(2) len(1) payload(len)                 keeps the whole slice
-    bgpls/nlri.py      type(2) len(2) payload(len); SAFI 72 with a registered type: the 8 RD bytes
-                       are cut out of `_packed` and the length lowered by 8
+    bgpls/nlri.py      type(2) len(2) payload(len); SAFI 72 with a registered type: the 8 RD bytes are
+                       kept apart (`route_d`) and `pack_nlri` puts them back, so the object keeps the
+                       information of the whole slice: `stored` is the slice (a length below 8 is refused)
     flow.py            len(1), or 0xFn len(1) when the first byte has its high nibble set:
                        `((b0 & 0x0F) << FLOW_LENGTH_EXTENDED_SHIFT) + b1`; keeps the payload only and
                        re-encodes the length (`_encode_length`: one byte below `flowCompactLimit` = 240, two below
                        `flowEncodeLimit`, both probed on the live method by the table plugin)
-    vpls.py            len(2) ≥ 17 and the NLRI must be ALL the remaining data; keeps len + 17 bytes
+    vpls.py            len(2) ≥ 17 and the NLRI must be ALL the remaining data; keeps 0x0011 + the 17
+                       bytes it reads (a longer NLRI is re-encoded without its unknown tail)
     rtc.py             0 → 1 byte; 32..96 → always 13 bytes; keeps them with the two high bits of byte 5 cleared
     sr_policy.py       bits(1) = 96 (IPv4) / 192 (IPv6), payload(bits/8); keeps the payload, re-adds the length
 
@@ -76,8 +78,6 @@ def splitBgpls (vpn : Bool) (d : Bytes) : Option Cut :=
     if vpn && decide (d.length < 12) then none
     else if vpn && decide (len < 8) && known then none
     else if d.length < 4 + len then none
-    else if vpn && known then
-      some ⟨d.take (4 + len), be16 code ++ be16 (len - 8) ++ (d.take (4 + len)).drop 12, d.drop (4 + len)⟩
     else some ⟨d.take (4 + len), d.take (4 + len), d.drop (4 + len)⟩
 
 /-- `Flow._encode_length` (none: the encoder raises) -/
@@ -107,7 +107,7 @@ def splitVpls (d : Bytes) : Option Cut :=
     let len := rd16 d
     if len < vplsPayloadSize then none
     else if d.length ≠ len + 2 then none
-    else some ⟨d, d.take 2 ++ (d.drop 2).take vplsPayloadSize, []⟩
+    else some ⟨d, be16 vplsPayloadSize ++ (d.drop 2).take vplsPayloadSize, []⟩
 
 /-- `RTC.resetFlags` on a byte -/
 def resetFlags (b : Nat) : Nat := b % 64
@@ -202,13 +202,10 @@ def Nlri.ok (c : Cfg) : Nlri → Prop
   | .srPolicy v => v.length * 8 = srPolicyBits c.afi
 
 /-- What the object keeps of a canonical NLRI. -/
-def Nlri.stored (c : Cfg) : Nlri → Bytes
+def Nlri.stored (_c : Cfg) : Nlri → Bytes
   | .flow v => v
   | .srPolicy v => v
   | .rtc bits v => bits :: (v.take 4 ++ [resetFlags (v.getD 4 0)] ++ (v.drop 5).take 7)
-  | .bgpls code v =>
-      if c.safi = 72 ∧ bgplsCodes.contains code = true then be16 code ++ be16 (v.length - 8) ++ v.drop 8
-      else be16 code ++ be16 v.length ++ v
   | n => n.frame
 
 /-- The registered decoder class → its framing kind (hand-written; the generated registry must be
